@@ -153,7 +153,7 @@ def parseFaults (s : String) : Option (List Fault) :=
 def labelMask (atoms : List Atom) (k : Nat) : Label :=
   atoms.foldl (fun acc a =>
     match a with
-    | .label k' off mask => if k' = k ∧ off < 16 then acc ^^^ BitVec.ofNat 128 (mask % 256 <<< (8 * (15 - off))) else acc
+    | .label k' off mask => if k' = k ∧ off < 16 then acc ^^^ BitVec.ofNat 128 ((mask % 256) <<< (8 * (15 - off))) else acc
     | _ => acc) 0#128
 
 /-- Dense error masks of the shape of `msgs` for the data atoms (message
@@ -242,9 +242,14 @@ def fullOutcome (s : Sess) (atoms : List Atom) : Option (List Label) × Option B
     else [(s.hon.seed, s.chi), (seed', chiTable seed' (s.n + 256))]
   let X := mkX tbls
   let r := sendKos X s.p.SS s.p.delta SendSt.init s.n (xorMsgs s.msgs1 E1 ++ xorMsgs s.msgs2 E2) [seed', x', t0', t1']
+  -- `Kos.residual` with the rows of the error matrix (`Kos.rowsOf`, as in `Kos.errRow`) computed once
   let dense : Option Bool :=
     if seed' == s.hon.seed then
-      some (residual (X s.hon.seed) s.p.delta s.n E1 E2 s.hon.x x' (s.hon.t0, s.hon.t1) (t0', t1') == pzero)
+      let rows1 := (rowsOf s.n E1).toArray
+      let rows2 := (rowsOf 256 E2).toArray
+      let er := psum (s.n + 256) fun r =>
+        mul128 (X s.hon.seed r) ((if r < s.n then rows1.getD r 0#128 else rows2.getD (r - s.n) 0#128) &&& s.p.delta)
+      some (pxor (pxor er (mul128 (s.hon.x ^^^ x') s.p.delta)) (pxor (s.hon.t0, s.hon.t1) (t0', t1')) == pzero)
     else none
   (r.map (·.labels), dense)
 
